@@ -284,6 +284,15 @@ def oracle(prop, run):
                         if t["state"] == "RELEASED" and t["release"] <= endt and t["fits_empty"]:
                             yield ("C05 ended-while-runnable-work-remains", {"task": lab, "end": endt})
                             break
+                # liveness of the scheduler: a task that was released and is still waiting at the end must have been
+                # offered at least once, i.e. the scheduler ran at or after its release (unless the run ended first)
+                starts_at = [int(r[0]) for r in rows if r[1] == "SCHEDULER_START"]
+                slack = max(flags["scheduler_frequency"], 1) + flags["scheduler_delay"] + 2
+                for lab, t in tasks.items():
+                    if t["state"] == "RELEASED" and t["fits_empty"] and t["release"] is not None and 0 <= t["release"] and endt - t["release"] > slack:
+                        if not any(x >= t["release"] for x in starts_at):
+                            yield ("C05 scheduler-never-ran-after-a-task-was-released", {"task": lab, "released": t["release"], "end": endt, "last_scheduler_start": max(starts_at, default=None)})
+                            break
                 if greedy and fits and not zero_rt and flags["loop_timeout"] == MAXSIZE:
                     bad = [lab for lab, t in tasks.items() if t["state"] not in ("COMPLETED", "CANCELLED")]
                     if bad:
